@@ -477,7 +477,7 @@ Proof.
       eapply frame_but_setb_D; [reflexivity|apply getb_nth; exact G1|reflexivity|intros l; apply N.le_refl].
     - eapply only_not_alive; [unfold setb; apply nth_error_upd_same; eapply getb_lt; exact G1|reflexivity]. }
   all: destruct (value b) as [p|]; [|discriminate]; unfold lift in H;
-    destruct (clone_slots (heap_of s) (slots p)) as [hc|] eqn:EC; [|discriminate];
+    destruct (clone_slots (heap_of s) (cloned_slots (slots p))) as [hc|] eqn:EC; [|discriminate];
     injection H as <- _ _ _; cbn [heap_of set_reg set_heap add_ev mk];
     apply quiet_ledger; (eapply quiet_trans; [eapply clone_slots_quiet; exact EC|apply quiet_snoc; reflexivity]).
 Qed.
